@@ -1,4 +1,5 @@
 import TwistedModel.Ssh.KeyBlob
+import TwistedProps.C37.Gen
 /-!
 C37 — SSH wire primitives and public-key blobs round-trip.
 
@@ -7,6 +8,9 @@ C37 — SSH wire primitives and public-key blobs round-trip.
 * `getMP_MP`, `getMP_list`: multiple-precision integers likewise, for every `n ≥ 0` (negative
   numbers are refused by `MP`), including the `0x80` padding rule.
 * `fromBlob_blob`: the four public-key blob layouts parse back to the same components.
+* `gen_*`: `NS`, `getNS`, `MP`, `getMP` are regenerated from conch/ssh/common.py on every run (`Generated.SshWire`,
+  harness/py2lean.py) and proved equal to the model's (`TwistedProps/C37/Gen.lean`); `gen_getNS_NS`, `gen_getMP_MP`
+  state the wire round trips over the regenerated definitions themselves.
 
 Private-key serialisation formats (OpenSSH v1 / PEM, LSH, agent v3; passphrases) are produced
 by `cryptography` and are *not* modelled: that half of the property is checked by the
@@ -189,6 +193,51 @@ theorem MP_top_bit_clear (n : Nat) (enc : Bytes) (h : MP (n : Int) = .ok enc) (h
     rw [List.drop_append_of_le_length (by simp [u32be_length])]
     simpa [u32be] using htop
   · simp [hlen] at h
+
+/-! ### the translator-regenerated `NS` / `getNS` / `MP` / `getMP` (see `TwistedProps/C37/Gen.lean`) -/
+
+/-- `NS` as regenerated from common.py = the model's (the model's `Err` read as the Python exception class) -/
+theorem gen_NS (t : Bytes) : Generated.SshWire.NS t = (NS t).mapError errToPy := gen_NS_eq t
+
+/-- `getNS` as regenerated from common.py (absolute cursor, slices of the whole buffer, fold over `range(count)`)
+    = the model's recursion on the unread rest, for every buffer and count -/
+theorem gen_getNS (s : Bytes) (count : Nat) :
+    Generated.SshWire.getNS s count = (getNS count s).mapError errToPy := gen_getNS_eq s count
+
+/-- `MP` as regenerated from common.py = the model's, for every integer -/
+theorem gen_MP (number : Int) : Generated.SshWire.MP number = (MP number).mapError errToPy := gen_MP_eq number
+
+/-- `getMP` as regenerated from common.py = the model's, for every buffer and count -/
+theorem gen_getMP (s : Bytes) (count : Nat) :
+    Generated.SshWire.getMP s count = (getMP count s).mapError errToPy := gen_getMP_eq s count
+
+theorem ok_of_mapError_ok {α : Type} (x : Except Err α) (v : α)
+    (h : x.mapError errToPy = .ok v) : x = .ok v := by
+  cases x with
+  | error e => cases h
+  | ok a => cases h; rfl
+
+/-- **getNS ∘ NS over the regenerated code**: what the translated `NS` encodes, the translated `getNS` decodes to
+    exactly that string and that rest -/
+theorem gen_getNS_NS (s r enc : Bytes) (h : Generated.SshWire.NS s = .ok enc) :
+    Generated.SshWire.getNS (enc ++ r) 1 = .ok ([s], r) := by
+  rw [gen_NS_eq] at h
+  rw [gen_getNS_eq, getNS_NS s r enc (ok_of_mapError_ok _ _ h)]; rfl
+
+/-- **getMP ∘ MP over the regenerated code**, for every `n ≥ 0` -/
+theorem gen_getMP_MP (n : Nat) (r enc : Bytes) (h : Generated.SshWire.MP (n : Int) = .ok enc) :
+    Generated.SshWire.getMP (enc ++ r) 1 = .ok ([n], r) := by
+  rw [gen_MP_eq] at h
+  rw [gen_getMP_eq, getMP_MP n r enc (ok_of_mapError_ok _ _ h)]; rfl
+
+/-- the regenerated `MP` refuses negative numbers with the `assert` -/
+theorem gen_MP_negative (n : Int) (h : n < 0) : Generated.SshWire.MP n = .error .assertionError := by
+  rw [gen_MP_eq, MP_negative n h]; rfl
+
+example : (match Generated.SshWire.MP 128 with | .ok b => b == [0, 0, 0, 2, 0, 128] | _ => false) = true := by
+  decide +kernel
+example : (match Generated.SshWire.getNS [0, 0, 0, 2, 1, 2, 7] 1 with | .ok r => r == ([[1, 2]], [7]) | _ => false) = true := by
+  decide +kernel
 
 /-! ### public-key blobs -/
 
